@@ -579,7 +579,8 @@ void ClipperOffset::ExecuteInternal(double delta)
 		for (const Group& group : groups_) sol_size += group.paths_in.size();
 		solution->reserve(sol_size);
 		for (const Group& group : groups_)
-			copy(group.paths_in.begin(), group.paths_in.end(), back_inserter(*solution));
+			if (group.end_type == EndType::Polygon) // open paths have no area: nothing to return for them
+				copy(group.paths_in.begin(), group.paths_in.end(), back_inserter(*solution));
 	}
 	else
 	{
